@@ -293,8 +293,9 @@ def obligations(ctx, gens):
 
 
 # Python twins of the Lean predicates, only to *name* the offending attribute when an obligation fails
-KNOWN_MISSING = {("", "error_codes"), ("java", "name"), ("jni", "name"), ("jni", "namespace"), ("objc", "domain_name"),
-                 ("objcpp", "name"), ("objcpp", "namespace"), ("*", "base_type"), ("*", "derived_header")}
+KNOWN_MISSING = {("", "error_codes", "error"), ("java", "name", "error"), ("jni", "name", "error"), ("jni", "namespace", "error"),
+                 ("objc", "domain_name", "error"), ("objcpp", "name", "error"), ("objcpp", "namespace", "error"),
+                 ("*", "base_type", "any"), ("*", "derived_header", "any")}
 BASE_FIELDS = ["name", "namespace", "primitive", "params", "comment", "deprecated", "position"]
 
 
@@ -306,7 +307,7 @@ def py_loadable(spec, u):
 
 
 def py_known(u):
-    return (u["gen"], u["attr"]) in KNOWN_MISSING or ("*", u["attr"]) in KNOWN_MISSING
+    return (u["gen"], u["attr"], u["ctx"]) in KNOWN_MISSING or ("*", u["attr"], u["ctx"]) in KNOWN_MISSING
 
 
 # ---------------------------------------------------------------------------------------------------------
@@ -594,6 +595,9 @@ def round_trips(ctx, cases, used, spec):
             if key in docs:
                 reqs.append({"op": "c13.load", "spec": spec, "doc": doc_req(docs[key], gen_keys)})
                 metas.append(("load", c, key, d, loaded.get(key)))
+            if key in docs and key not in loaded:
+                ctx.report("key:" + d["kind"], "the type loaded from the exported YAML is not registered under the declaration's qualified name",
+                           {"input": {**inp, "type": key}, "registered": sorted(loaded)})
             if key in loaded:
                 reqs.append({"op": "c13.spec", "decl": decl_req, "loaded": loaded[key], "used": used_req, "primitive": d["primitive"]})
                 metas.append(("spec", c, key, d, loaded[key]))
